@@ -105,10 +105,14 @@ def build(ctx):
     for m in ALL_METRICS:
         for dt in (("uint8", "uint32", "int64") if m in ("DSC",) else ("uint8",)):
             ctx.unit(f"global[{m},{dt}]", lambda m=m, dt=dt: unit_global(ctx, m, dt))
+    # the arrays handed to PanopticaResult are the matched pair's: relabelling must keep both foregrounds (C04), regenerated here
+    include_stage(ctx, "C04")
     ctx.add_bounded("c13-enum", "c13.bounded")
 
 
 def concretise(ctx, o, r):
+    if (o.info or {}).get("stage"):
+        return stage_concretise(ctx, o, r)
     ev = r.get("evals") or {}
     m = r.get("model") or {}
     regs = o.info.get("venn_regions") or []
